@@ -53,6 +53,7 @@ type Violation struct {
 func (v Violation) Sig() string { return v.Prop + "/" + v.Rule + "/" + v.Culprit }
 
 type FoundViolation struct {
+	Batch *Job      `json:"-"` // set when the violation only reproduces as part of its batch
 	Seed  uint64    `json:"seed"`
 	V     Violation `json:"v"`
 	World []int     `json:"world"`
